@@ -135,6 +135,41 @@ pub fn replay_one(ctx: &Ctx, bytes: &[u8]) -> Option<String> {
     None
 }
 
+fn part_b_inputs(ctx: &Ctx) -> Vec<String> {
+    let n_inputs = if ctx.thorough() { 6000 } else { 1200 };
+    let mut inputs = gen_::mixed_inputs(ctx.args.seed, "c25", n_inputs, 400);
+    inputs.extend(gen_::corpus());
+    inputs.extend(gen_::type_error_inputs());
+    inputs
+}
+
+/// Child mode for part B: the in-process front end has no fuel of its own, so a compiler hang on
+/// a generated input (C06's business) would take this process down; the child runs under an
+/// address-space limit and reports after every input so the parent can skip the culprit.
+pub fn part_b_child(ctx: &Ctx, from: usize) -> i32 {
+    unsafe {
+        let lim = libc::rlimit { rlim_cur: 4 << 30, rlim_max: 4 << 30 };
+        libc::setrlimit(libc::RLIMIT_AS, &lim);
+    }
+    let inputs = part_b_inputs(ctx);
+    for (i, text) in inputs.iter().enumerate().skip(from) {
+        crate::outln!("START {i}");
+        match check_rendered(ctx, text) {
+            Ok(n) => crate::outln!("OK {i} {n}"),
+            Err((k, d)) => {
+                let min = gen_::shrink_text(text, &|t| matches!(check_rendered(ctx, t), Err((k2, _)) if k2 == k));
+                let d2 = match check_rendered(ctx, &min) {
+                    Err((_, d2)) => d2,
+                    _ => d,
+                };
+                crate::outln!("ERR {i} {}", serde_json::to_string(&json!({"key": k, "desc": d2, "min": min})).unwrap());
+            }
+        }
+    }
+    crate::outln!("STATS {}", ctx.stats_json());
+    0
+}
+
 pub fn run(ctx: &Ctx) -> i32 {
     let rule = "Part A: every string of length <= L over {a,\\n,\\r,\\t,é} (L=7 quick, 8 thorough) x every byte offset 0..=len, exhaustive; non-trivial = (string, offset) pairs with >= 1 newline before the offset (distinct by construction). Part B: diagnostics of generated token soups / corpus mutations rendered through Diagnostic::display; non-trivial = diagnostic starting after line 0 (distinct by (input, start)).";
     if let Some(p) = &ctx.args.replay {
@@ -179,28 +214,60 @@ pub fn run(ctx: &Ctx) -> i32 {
     }
     ctx.sample(json!({"part": "A", "text": "a\né\r\n\ta", "offset": 5, "model_line_col": model("a\né\r\n\ta", 5)}));
 
-    // Part B
-    let n_inputs = if ctx.thorough() { 6000 } else { 1200 };
-    let mut inputs = gen_::mixed_inputs(ctx.args.seed, "c25", n_inputs, 400);
-    inputs.extend(gen_::corpus());
-    inputs.extend(gen_::type_error_inputs());
+    // Part B (in child processes, see part_b_child)
+    let inputs = part_b_inputs(ctx);
     let mut rendered_total = 0u64;
-    for text in &inputs {
-        match check_rendered(ctx, text) {
-            Ok(n) => {
-                rendered_total += n;
-                if n > 0 && ctx.sample_count() < 6 {
-                    ctx.sample(json!({"part": "B", "input": text.chars().take(120).collect::<String>(), "diagnostics_rendered": n}));
+    let mut from = 0usize;
+    let exe = std::env::current_exe().unwrap();
+    let tier = if ctx.thorough() { "thorough" } else { "quick" };
+    let mut restarts = 0;
+    while from < inputs.len() {
+        let out = std::process::Command::new(&exe)
+            .args(["C25", "--tier", tier, "--seed", &ctx.args.seed.to_string(), "--partb-child", &from.to_string()])
+            .output();
+        let Ok(out) = out else {
+            eprintln!("cannot spawn part B child");
+            return 2;
+        };
+        let text = String::from_utf8_lossy(&out.stdout).to_string();
+        let mut last_started = None;
+        let mut finished = false;
+        for line in text.lines() {
+            if let Some(i) = line.strip_prefix("START ") {
+                last_started = i.parse::<usize>().ok();
+            } else if let Some(rest) = line.strip_prefix("OK ") {
+                let mut it = rest.split(' ');
+                let _i = it.next();
+                rendered_total += it.next().and_then(|x| x.parse::<u64>().ok()).unwrap_or(0);
+            } else if let Some(rest) = line.strip_prefix("ERR ") {
+                if let Some((_, js)) = rest.split_once(' ') {
+                    if let Ok(v) = serde_json::from_str::<serde_json::Value>(js) {
+                        ctx.fail(v["key"].as_str().unwrap_or("?"), v["desc"].as_str().unwrap_or(""), v["min"].as_str().unwrap_or("").as_bytes());
+                    }
                 }
+            } else if let Some(js) = line.strip_prefix("STATS ") {
+                ctx.merge_stats_json(js);
+                finished = true;
             }
-            Err((k, d)) => {
-                let min = gen_::shrink_text(text, &|t| matches!(check_rendered(ctx, t), Err((k2, _)) if k2 == k));
-                let d2 = match check_rendered(ctx, &min) {
-                    Err((_, d2)) => d2,
-                    _ => d,
-                };
-                ctx.fail(&k, &d2, min.as_bytes());
-            }
+        }
+        if finished {
+            break;
+        }
+        // the child died (resource limit / abort) while working on `last_started`: skip that input
+        let culprit = last_started.unwrap_or(from);
+        ctx.class("partB.front-end-died-on-input(C06's business)", 1);
+        let _ = std::fs::create_dir_all("/verif/work");
+        let _ = std::fs::write(format!("/verif/work/c25-frontend-died-{}.capy", culprit), &inputs[culprit]);
+        from = culprit + 1;
+        restarts += 1;
+        if restarts > 50 {
+            eprintln!("part B child keeps dying");
+            return 2;
+        }
+    }
+    if ctx.sample_count() < 6 {
+        if let Some(t) = gen_::type_error_inputs().first() {
+            ctx.sample(json!({"part": "B", "input": t, "note": "near-valid program with a type error that carries a help range"}));
         }
     }
     ctx.add_evals(rendered_total);
